@@ -172,7 +172,7 @@ fn gen_template_expr(r: &mut Rng, d: usize) -> String {
 }
 fn gen_template_call(r: &mut Rng, d: usize) -> String {
     let mut s = format!("{}{}({}", r.pick(FUNCS), ws(r), ws(r));
-    let n = if d == 0 { 0 } else { r.below(3) };
+    let n = if d == 0 { 0 } else { *r.pick(&[0, 1, 1, 2]) };
     for i in 0..n {
         if i > 0 { s.push_str(ws(r)); s.push(','); s.push_str(ws(r)); }
         if r.chance(1, 5) { s.push_str(*r.pick(&["x", "sep", "n_1"])); s.push_str(ws(r)); s.push('='); s.push_str(ws(r)); }
@@ -197,7 +197,7 @@ fn gen_template_term(r: &mut Rng, d: usize) -> String {
         }
         _ => gen_template_call(r, d),
     };
-    if r.chance(1, 3) {
+    if r.chance(1, 4) {
         for _ in 0..r.range(1, 2) { s.push_str(ws(r)); s.push('.'); s.push_str(ws(r)); s.push_str(&gen_template_call(r, d.min(1))); }
     }
     s
@@ -230,6 +230,16 @@ fn gen_random(r: &mut Rng) -> String {
         // arbitrary Unicode scalar values among plain characters (exercises the XID_CONTINUE table)
         _ => (0..r.range(1, 6)).map(|_| if r.chance(1, 2) { char::from_u32(r.below(0x110000) as u32).unwrap_or('a') } else if r.chance(1, 2) { char::from_u32(r.below(0x3000) as u32).unwrap_or('b') } else { *r.pick(&['a', '.', '-', '+', '_', '(', ')', ' ']) }).collect(),
     }
+}
+
+/// generate with `f` at nesting `d`, lowering `d` until the text has at most 8 opening parentheses and 300 bytes
+fn gen_fit(r: &mut Rng, mut d: usize, f: fn(&mut Rng, usize) -> String) -> String {
+    for _ in 0..12 {
+        let t = f(r, d);
+        if t.matches('(').count() <= 8 && t.len() <= 300 { return t; }
+        d = d.saturating_sub(1);
+    }
+    "a".to_string()
 }
 
 /// the real revset parser is exponential in the nesting depth of parentheses / calls (also on
@@ -324,7 +334,8 @@ fn new_aliases(r: &mut Rng, out: &mut Out) -> Aliases {
     for _ in 0..r.range(3, 8) {
         let decl = gen_decl(r);
         let bad = r.chance(1, 8);
-        let (a, b, c) = (gen_revset(r, if bad { 1 } else { 2 }), gen_fileset(r, if bad { 1 } else { 2 }), gen_template(r, if bad { 1 } else { 2 }));
+        let dd = if bad { 1 } else { 2 };
+        let (a, b, c) = (gen_fit(r, dd, gen_revset), gen_fit(r, dd, gen_fileset), gen_fit(r, dd, gen_template));
         let defn = if bad { [mutate(r, &a), mutate(r, &b), mutate(r, &c)] } else { [a, b, c] };
         decl_text(out, &mut al, &tame(decl), &defn.map(tame));
     }
@@ -454,12 +465,12 @@ fn template_err(e: &template_parser::TemplateParseError) -> String {
 /// real map replaces on re-insertion, the model takes the first match) and a few expressions expanded under it,
 /// through `dsl_util::expand_aliases` on `revset::parse_program` and through `template_parser::parse`.
 fn alias_cases(r: &mut Rng, out: &mut Out) {
-    let names = r.range(2, 5);
+    let names = r.range(2, 4);
     let mut enc: Vec<usize> = Vec::new();
     let (mut rs, mut tp, mut fs) = (RevsetAliasesMap::new(), TemplateAliasesMap::new(), FilesetAliasesMap::new());
     let mut seen = std::collections::HashSet::new();
     let mut count = 0;
-    for _ in 0..r.range(1, 6) {
+    for _ in 0..r.range(2, 8) {
         let name = r.below(names);
         let dd = r.range(0, 2);
         let defn = if r.chance(1, 10) { None } else { Some(gen_ast(r, dd, names)) };
@@ -545,6 +556,7 @@ fn deep_text(kind: &str, n: usize) -> Option<String> {
 
 /// child: parse (and drop) one chain in a thread with the default 8 MiB main-thread stack size
 fn child_main(kind: &str, n: usize) -> ! {
+    if kind == "alias-recursion" { child_alias_recursion(); }
     let Some(text) = deep_text(kind, n) else { std::process::exit(3) };
     let h = std::thread::Builder::new().stack_size(8 << 20).spawn(move || {
         let res = std::panic::catch_unwind(|| revset::parse_program(&text).map(|node| drop(node)).is_ok());
@@ -553,6 +565,45 @@ fn child_main(kind: &str, n: usize) -> ! {
     let code = h.join().unwrap_or(2);
     println!("child-deep {kind} {n}: {}", ["parsed", "error", "panic"][code as usize]);
     std::process::exit(code)
+}
+
+/// child: recursive alias maps through the three expanders.  If the recursion-detection stack did not work the
+/// expansion would recurse until the stack overflows, which cannot be caught in-process.
+fn child_alias_recursion() -> ! {
+    let h = std::thread::Builder::new().stack_size(8 << 20).spawn(move || {
+        let decls = [("A", "B | x"), ("B", "C"), ("C", "(A)"), ("f(x)", "f(x)"), ("g(x)", "h(g(x))"), ("h(x)", "g(x)"), ("p:x", "p:x"), ("q:x", "A")];
+        let (mut rs, mut fs, mut tp) = (RevsetAliasesMap::new(), FilesetAliasesMap::new(), TemplateAliasesMap::new());
+        for (d, v) in decls { rs.insert(d, v, None).unwrap(); fs.insert(d, v, None).unwrap(); tp.insert(d, v.replace('|', "++"), None).unwrap(); }
+        let conv = RepoPathUiConverter::Fs { cwd: PathBuf::from("/ws"), base: PathBuf::from("/ws") };
+        let mut returned = 0;
+        for text in ["A", "B", "f(a)", "g(a)", "p:a", "q:a", "x & (A)", "f(f(a))"] {
+            if let Ok(n) = revset::parse_program(text) { let _ = dsl_util::expand_aliases(n, &rs); returned += 1; }
+            let mut d = FilesetDiagnostics::new();
+            let _ = fileset::parse(&mut d, text, &FilesetParseContext { aliases_map: &fs, path_converter: &conv });
+            let _ = template_parser::parse(&text.replace('&', "+"), &tp);
+        }
+        returned
+    }).unwrap();
+    let n = h.join().unwrap_or(0);
+    println!("child alias-recursion: {n} expansions returned");
+    std::process::exit(if n == 8 { 0 } else { 2 })
+}
+
+/// returns true when recursive aliases are handled (the in-process alias tests are safe to run)
+fn alias_recursion_probe(out: &mut Out) -> bool {
+    let tmp = tempfile::tempdir().unwrap();
+    let exe = std::env::current_exe().unwrap();
+    let res = std::process::Command::new(exe).args(["C36", "--out", tmp.path().to_str().unwrap(), CHILD_FLAG, "alias-recursion", "0"]).output();
+    out.impl_only();
+    match res {
+        Err(e) => { out.note(format!("could not spawn the alias-recursion child: {e}")); true }
+        Ok(o) if o.status.code() == Some(0) => { out.tally("alias-recursion-child", "returned"); out.oracle_ok(); true }
+        Ok(o) => {
+            out.tally("alias-recursion-child", "died");
+            out.oracle_fail("parser:alias-recursion-not-detected", format!("recursive aliases (A = B | x, B = C, C = (A); f(x) = f(x); g(x) = h(g(x)), h(x) = g(x); p:x = p:x) expanded in a child process: status {:?}; stderr: {}", o.status, tail(&String::from_utf8_lossy(&o.stderr))));
+            false
+        }
+    }
 }
 
 fn deep_case(out: &mut Out, kind: &str, n: usize) {
@@ -611,30 +662,33 @@ pub fn run(cfg: &Cfg, out: &mut Out) {
     out.note(format!("exhaustive: all {} strings of length ≤ {} over {alpha:?} through revset program / symbol_name, fileset program / program_or_bare_string, template program; then generated", small.len(), if cfg.tier == Tier::Thorough { 3 } else { 2 }));
 
     // 2. generated expressions, their mutations, random strings; alias maps (incl. recursive and malformed) renewed every 40 rounds
+    // (recursive aliases are first tried in a child process: undetected recursion would abort this process)
+    let aliases_safe = alias_recursion_probe(out);
     let mut r = cfg.rng(36);
     let mut al = new_aliases(&mut r, out);
-    let rounds = cfg.n(700, 12_000);
+    let rounds = cfg.n(3000, 40_000);
     for round in 0..rounds {
         if round % 40 == 39 { al = new_aliases(&mut r, out); }
+        if !aliases_safe { al = Aliases { revset: RevsetAliasesMap::new(), fileset: FilesetAliasesMap::new(), template: TemplateAliasesMap::new() }; }
         // nesting: mostly ≤ 3, sometimes up to 6 (quick) — never more than 8 opening parentheses (see `tame`)
         let d = if r.chance(1, 25) { r.range(4, 6) } else { r.range(0, 3) };
         let kind = r.below(10);
-        let pick = |r: &mut Rng, valid: String| -> String { tame(match kind { 0..=4 => valid, 5..=7 => mutate(r, &valid), _ => gen_random(r) }) };
-        let v = gen_revset(&mut r, d); let t = pick(&mut r, v);
+        let pick = |r: &mut Rng, valid: String| -> String { tame(match kind { 0..=5 => valid, 6..=8 => mutate(r, &valid), _ => gen_random(r) }) };
+        let v = gen_fit(&mut r, d, gen_revset); let t = pick(&mut r, v);
         revset_text(out, &cx, &al, &t);
         if r.chance(1, 4) { let s = if r.chance(1, 2) { gen_symbol(&mut r) } else { t.clone() }; let s = if r.chance(1, 3) { mutate(&mut r, &s) } else { s }; symbol_text(out, &tame(s)); }
-        let v = if r.chance(1, 4) { gen_bare(&mut r) } else { gen_fileset(&mut r, d) }; let t = pick(&mut r, v);
+        let v = if r.chance(1, 4) { gen_bare(&mut r) } else { gen_fit(&mut r, d, gen_fileset) }; let t = pick(&mut r, v);
         fileset_text(out, &cx, &al, &t);
-        let v = gen_template(&mut r, d.min(4)); let t = pick(&mut r, v);
+        let v = gen_fit(&mut r, d.min(4), gen_template); let t = pick(&mut r, v);
         template_text(out, &al, &t);
         // cross-language: a text generated for one language through the others
-        if r.chance(1, 6) { let t = tame(gen_template(&mut r, 2)); revset_text(out, &cx, &al, &t); fileset_text(out, &cx, &al, &t); }
-        if r.chance(1, 6) { let t = tame(gen_revset(&mut r, 2)); template_text(out, &al, &t); fileset_text(out, &cx, &al, &t); }
+        if r.chance(1, 6) { let t = gen_fit(&mut r, 2, gen_template); revset_text(out, &cx, &al, &t); fileset_text(out, &cx, &al, &t); }
+        if r.chance(1, 6) { let t = gen_fit(&mut r, 2, gen_revset); template_text(out, &al, &t); fileset_text(out, &cx, &al, &t); }
     }
 
     // 2b. alias expansion against the abstract model
     let mut r2 = cfg.rng(3636);
-    for _ in 0..cfg.n(600, 12_000) { alias_cases(&mut r2, out); }
+    if aliases_safe { for _ in 0..cfg.n(1500, 20_000) { alias_cases(&mut r2, out); } }
 
     // 3. moderate nesting, exactly at the depths where the real parser is still fast (≤ 8 parentheses)
     for depth in 1..=8usize {
@@ -669,7 +723,7 @@ pub fn run(cfg: &Cfg, out: &mut Out) {
         // below 10 kB: must parse
         for (kind, n) in [("prefix", 3_000usize), ("postfix", 9_000), ("infix", 2_400)] { deep_case(out, kind, n); }
         // 100 kB – 1 MB: known to overflow (F3)
-        let giants: &[(&str, usize)] = if cfg.tier == Tier::Quick { &[("prefix", 200_000), ("postfix", 1_000_000), ("infix", 250_000)] }
+        let giants: &[(&str, usize)] = if cfg.tier == Tier::Quick { &[("prefix", 100_000), ("postfix", 500_000), ("infix", 250_000)] }
             else { &[("prefix", 200_000), ("postfix", 1_000_000), ("infix", 250_000), ("union", 250_000), ("prefix", 100_000), ("infix", 1_000_000)] };
         for (kind, n) in giants { deep_case(out, kind, *n); }
     }
